@@ -541,6 +541,20 @@ func (g *gen) rewritePkgRefs(info *types.Info, node ast.Node) ast.Node {
 			c.Replace(ast.NewIdent(n))
 			return false
 		}
+		if v, ok := obj.(*types.Var); ok && v.Embedded() {
+			// A field declared by embedding a type is called like the type:
+			// selectors and literal keys follow a renamed local type.
+			t := v.Type()
+			if p, ok := t.(*types.Pointer); ok {
+				t = p.Elem()
+			}
+			if named, ok := t.(*types.Named); ok {
+				if n, ok := newNames[named.Obj()]; ok {
+					c.Replace(ast.NewIdent(n))
+					return false
+				}
+			}
+		}
 		if par := obj.Parent(); par == nil || par == pkgScope {
 			// Don't rename methods, field names, or top-level identifiers.
 			return true
